@@ -14,7 +14,13 @@ ENTRY = dict(
         "`loss_effects_only_from_loss_handling`, `failed_open_backs_off` / `open_timeout_backs_off` / `no_retry_during_backoff` / "
         "`backoff_end_retries` (retry every RECONNECT_TIMEOUT until success), `reestablished` / `start_master_sent_first` / "
         "`producer_sends_head` (start-master queued again, devices told True, consumers topped up), `device_map_stable` / "
-        "`known_device_not_recreated`. The machine is tied to the code by running identical histories on both."),
+        "`known_device_not_recreated`, `one_device_per_address`, `device_identity_stable`. Frame consumers and the read queue are in the "
+        "machine (parked / holding a frame behind the entry lock or a suspended subscriber / exited after finishing a frame while "
+        "disconnected): `consumers_bounded`, `consumers_topped_up` (connected => exactly consumers_count alive), `read_balance` "
+        "(unfinished = queued + in hand), `frames_reach_same_device` (frames put = frames delivered to that address + pending, every "
+        "shutdown-free run) with `frames_delivered_at_rest`; trace-level `one_announce_per_loss_per_device`, `one_reconnect_per_loss`; "
+        "`start_master_sent_after_k_frames`; `retry_until_success` / `retry_until_success_hung`; `retry_exactly_after_backoff`. "
+        "The machine is tied to the code by running identical histories on both (incl. gated histories and stalls at every cut point of a frame)."),
     level_note="Partial by nature: real sockets/serial errors are replaced by scripted faults; the model<->code tie is differential (generated histories); asyncio primitives are exercised, not modelled.",
     clauses={
         "failure at any point (EOF, OSError, read/write timeout) is detected": "theorem (detection lemmas, all reachable states) + correspondence (faults injected through StreamReader.feed_eof/set_exception, a raising/hanging drain, silence until the real @timeout fires)",
@@ -23,11 +29,12 @@ ENTRY = dict(
         "a failing attempt is retried after the back-off interval until one succeeds": "theorem (per attempt: back-off deadline = failure time + RECONNECT_TIMEOUT, no call before it, one call at it); that the timer fires exactly then is the modelled scheduler + correspondence (virtual timestamps of _open_connection calls)",
         "after re-establishment start-master sent again, devices see True, same device objects": "theorem (queued behind older requests, FIFO) + correspondence (frames on successive fake transports, id() of device objects)",
         "number of background tasks does not grow": "theorem + correspondence (asyncio.all_tasks() classified after every event)",
-        "loss while frame consumers are in the middle of a frame (they exit while disconnected and must be replaced)": "correspondence only, statement-level oracle: 'gated' histories with a slow subscriber on the protocol's new-device event; after every re-establishment exactly consumers_count consumers run and every received frame reaches its device object (the Lean machine treats frame handling as atomic)",
+        "loss while frame consumers are in the middle of a frame (they exit while disconnected and must be replaced)": "theorem (consumers_topped_up, consumers_bounded, read_balance, frames_reach_same_device) + correspondence: 'gated' histories (slow subscriber on the protocol's new-device event) are replayed by the Lean driver and compared state by state (consumer count, read queue length, deliveries), plus the statement-level oracle",
+        "a peer that stalls in the middle of a frame is detected": "correspondence (stall after k bytes for every cut point of a frame; the model's read timeout is per read() call) + statement-level oracle (loss handled within READER_TIMEOUT)",
     },
     assumptions=COMMON_ASSUME + [
         "I/O faults are scripted on fake transports (StreamReader.feed_eof/set_exception, FakeWriter.drain/wait_closed raising or hanging, scripted _open_connection); real socket / serial behaviour is not exercised",
-        "module imports complete synchronously in the harness loop; frame handling is atomic in the Lean machine (import timing is C10's subject); consumers caught mid-frame by a loss are exercised on the implementation only (gated histories, oracle = the statement)",
+        "module imports complete synchronously in the harness loop (import timing is C10's subject); a consumer is held mid-frame only by a slow subscriber of the protocol's device-name event (harness events G / R)",
     ],
     timeout={"quick": 600, "thorough": 3000},
 )
